@@ -4,6 +4,7 @@ package main
 //
 // One cell = one line:
 //   kind=uri preload=1 limit=2 passes=0 n=3 cons=1 cap=8 junk=0 [mode=drain|stall|ext|engine] [via=direct|cfg] [at=K] [shots=S] [pad=P] [eol=E] [idle=1] [gate=G]
+// round 6, the size of an entry: [big=B bigat=I] entry I (1-based) is B bytes larger than the others; [mas=M] the maxammosize option
 // fault plan (any combination, modes drain / ext / tcan): [cfail=1|2] [rfail=K [rsticky=1]] [ofail=1]; the observation then ends with rhit= chit= ohit=
 // kinds: uri uris uripost raw jsonl jsonarr (components/providers/http, with and without preload), grpcjson,
 // httpscn, grpcscn (scenario providers), genjson (core/provider JSON provider over MultiPassReader).
@@ -82,6 +83,8 @@ type cell struct {
 	pick   []int  // chosencases: ids of the listed entries (nil: no chosencases option)
 	src    string // generic JSON provider: data source kind
 	wts    []int  // scenario kinds: weights of the n scenarios
+	// round 6
+	big, bigat, mas int // entry bigat-1 is `big` bytes larger than the others; the maxammosize option
 }
 
 func (c cell) lim() uint64 {
@@ -156,6 +159,12 @@ func (c cell) line() string {
 	}
 	if c.src != "" {
 		s += " src=" + c.src
+	}
+	if c.bigat != 0 {
+		s += fmt.Sprintf(" big=%d bigat=%d", c.big, c.bigat)
+	}
+	if c.mas != 0 {
+		s += fmt.Sprintf(" mas=%d", c.mas)
 	}
 	if c.wts != nil {
 		p := make([]string, len(c.wts))
@@ -421,7 +430,6 @@ func gen(r *rand.Rand, tier string) []string {
 		}
 	}
 
-
 	// ------------------------------------------------------------------------------------------------ round 4
 	// I. chosencases (http kinds with and without preload, grpc/json): the entries of a pass are the entries of the file
 	// whose tag is listed.  EVERY non-empty subset of the entries of every file of 1..4 entries x limit 0..4 x passes 0..3
@@ -672,6 +680,59 @@ func gen(r *rand.Rand, tier string) []string {
 		}
 	}
 
+	// ------------------------------------------------------------------------------------------------ round 6
+	// M. the size of an entry x the maxammosize option: one entry of the file (first / middle / last) is larger than one
+	// read buffer (4 KiB), than bufio.MaxScanTokenSize (64 KiB: the default token limit of a bufio.Scanner) — with
+	// maxammosize unset, set above the entry (the file is well-formed for that configuration: every pass has to deliver
+	// it) and set below it (grpc/json: the entry is not readable, Run reports it) — x bound shapes that end inside the
+	// first pass, at its end, in a later pass; cut, stalled, through the engine.  Every kind whose ammo file has entries
+	// of a size of their own (all but the scenario kinds and the inline uris).
+	type szb struct{ limit, passes int }
+	szBounds := []szb{{0, 1}, {0, 2}, {0, 3}, {0, 0}}
+	sizes := []struct{ big, mas int }{{70000, 0}, {70000, 100000}, {70000, 65536}, {5000, 0}, {5000, 4096}, {5000, 8192}, {300, 0}, {300, 100000}, {131072, 140000}}
+	if thorough {
+		sizes = append(sizes, struct{ big, mas int }{200000, 300000}, struct{ big, mas int }{65400, 0}, struct{ big, mas int }{66000, 66300}, struct{ big, mas int }{1 << 20, 1<<20 + 4096})
+	}
+	for vi, v := range vs {
+		sized := c08cell.IsHTTP(v.kind) && v.kind != c08cell.KURIs || v.kind == c08cell.KGRPCJSON || v.kind == c08cell.KGenJSON
+		if !sized {
+			continue
+		}
+		for si, sz := range sizes {
+			if sz.mas != 0 && v.kind == c08cell.KGenJSON {
+				continue
+			}
+			for n := 1; n <= 3; n++ {
+				for bigat := 1; bigat <= n; bigat++ {
+					bounds := append([]szb{}, szBounds...)
+					bounds = append(bounds, szb{n + bigat, 0}, szb{2*n + 1, 3}, szb{bigat, 0})
+					for bi, b := range bounds {
+						h := vi + si + n + bigat + bi
+						if !thorough && sz.big < 60000 && h%2 == 0 {
+							continue
+						}
+						c := cell{v: v, limit: b.limit, passes: b.passes, n: n, cons: 1 + 2*(h%2), cap: capFor(b.limit, b.passes, n), big: sz.big, bigat: bigat, mas: sz.mas, eol: h % 4, junk: h%3 == 0}
+						if h%3 == 1 {
+							c.via = "cfg"
+						}
+						if h%5 == 0 {
+							c.pad = 700
+						}
+						add(c)
+					}
+				}
+			}
+			// cut after every number of deliveries of two passes, stalled, timer, engine
+			n, bigat := 2, 1+si%2
+			for cp := 1; cp <= 2*n+1; cp++ {
+				add(cell{v: v, passes: 2, n: n, cons: 1 + 2*(cp%2), cap: cp, big: sz.big, bigat: bigat, mas: sz.mas})
+			}
+			add(cell{v: v, passes: 3, n: n, cons: 1, cap: 3, mode: "stall", big: sz.big, bigat: bigat, mas: sz.mas})
+			add(cell{v: v, limit: 5, n: n, cons: 2, cap: 12, mode: "ext", at: 2 + si, big: sz.big, bigat: bigat, mas: sz.mas})
+			add(cell{v: v, passes: 2, n: n, cons: 1 + si%3, mode: "engine", via: "cfg", big: sz.big, bigat: bigat, mas: sz.mas})
+		}
+	}
+
 	// G. random larger cells, all modes
 	extra := 400
 	maxN, maxL, maxP = 12, 30, 6
@@ -775,6 +836,13 @@ func gen(r *rand.Rand, tier string) []string {
 				c.cap = 1 + r.Intn(m+1)
 			}
 		}
+		// round 6: one larger entry / a maxammosize option
+		if (c08cell.IsHTTP(v.kind) && v.kind != c08cell.KURIs || v.kind == c08cell.KGRPCJSON || v.kind == c08cell.KGenJSON) && r.Intn(6) == 0 {
+			c.big, c.bigat = []int{300, 5000, 70000}[r.Intn(3)], 1+r.Intn(n)
+			if v.kind != c08cell.KGenJSON && r.Intn(2) == 0 {
+				c.mas = c.big + c.pad + 4096 + r.Intn(50000)
+			}
+		}
 		if (c.mode == "" || c.mode == "ext" || c.mode == "tcan") && r.Intn(4) == 0 { // a fault plan on top
 			switch r.Intn(4) {
 			case 0:
@@ -845,6 +913,9 @@ func run(input string) string {
 		RSticky: kv["rsticky"] == "1",
 		OFail:   kv["ofail"] == "1",
 		Src:     kv["src"],
+		Big:     atoi(kv["big"]),
+		BigAt:   atoi(kv["bigat"]),
+		Mas:     atoi(kv["mas"]),
 	}
 	pk, hasPick := kv["pick"]
 	c.Pick = parsePick(pk, hasPick)
@@ -954,6 +1025,19 @@ func class(input, obs string) string {
 	if kv["wts"] != "" {
 		x += "+wts"
 	}
+	if kv["bigat"] != "" {
+		switch big := atoi(kv["big"]) + atoi(kv["pad"]); {
+		case big >= 65536-100:
+			x += "+big64k"
+		case big >= 4096-100:
+			x += "+big4k"
+		default:
+			x += "+big"
+		}
+	}
+	if kv["mas"] != "" {
+		x += "+mas"
+	}
 	return mode + ":" + kv["kind"] + pre + x + "/" + b
 }
 
@@ -974,6 +1058,7 @@ func main() {
 			"limit / passes near and above the int range (2^31+1 .. 2^64-1, products passes x entries that do not fit 64 bits) alone, with a small other bound and together, " +
 			"scenario weights (weight vectors with and without a common divisor, weight 0, one weighted scenario: a pass delivers scenario i weight_i / gcd times) x limit x passes, cut, stalled, through the engine, with huge passes; " +
 			"the data sources of the generic JSON provider (file, inline, NewReader over a ReadSeeker / ReadSeekCloser / ReadCloser without Seek / plain io.Reader, NewBuffer); " +
+			"round 6: one entry of the file larger than a read buffer / than bufio.MaxScanTokenSize (big= bigat=) x the maxammosize option unset / above / below it (mas=) x bound shapes ending inside the first pass, at its end, in a later pass; also cut, stalled, cancelled inside a file operation, through the engine; " +
 			"also with a schedule without any token (idle: the engine cancels the provider inside its gate-th file operation, e.g. in the middle of LoadAmmo); four shapes of line ends (eol: LF, no final newline, CRLF, surrounding blank lines); random larger cells in all modes. " +
 			"Every cell is non-trivial (class = mode:kind/preload/bound shape)",
 	})
